@@ -35,6 +35,11 @@ Proof.
   destruct (j =? id); [destruct ob|]; reflexivity.
 Qed.
 
+Lemma hget_hput_eq w id ob c : id < length (wheap w) -> hget (hput w id ob c) id = ob.
+Proof. intros H. rewrite hget_hput, Nat.eqb_refl by assumption. reflexivity. Qed.
+Lemma hget_hput_ne w id ob c j : id < length (wheap w) -> j <> id -> hget (hput w id ob c) j = hget w j.
+Proof. intros H N. rewrite hget_hput by assumption. destruct (Nat.eqb_spec j id); [contradiction|reflexivity]. Qed.
+
 Lemma hput_len w id ob c : id < length (wheap w) -> length (wheap (hput w id ob c)) = length (wheap w).
 Proof. intros H. unfold hput. simpl. apply setnth_length. assumption. Qed.
 
@@ -139,9 +144,11 @@ Proof.
       destruct (Nat.eqb_spec j id) as [->|N]; [discriminate|].
       left. split; [apply LV; eauto|]. intros Hb. eapply (DJ j id bj b t); eassumption.
   - intros j bj. rewrite hget_hput by assumption. destruct (Nat.eqb_spec j id); [discriminate|apply ND].
-  - intros i j bi bj t N Hi Hj. rewrite hget_hput in Hi, Hj by assumption.
-    destruct (Nat.eqb_spec i id); [discriminate|]. destruct (Nat.eqb_spec j id); [discriminate|].
-    eapply DJ; eassumption.
+  - intros i j bi bj t N Hi Hj.
+    destruct (Nat.eq_dec i id) as [->|Ni]; [rewrite hget_hput_eq in Hi by assumption; discriminate|].
+    destruct (Nat.eq_dec j id) as [->|Nj]; [rewrite hget_hput_eq in Hj by assumption; discriminate|].
+    rewrite hget_hput_ne in Hi, Hj by assumption.
+    exact (DJ i j bi bj t N Hi Hj).
 Qed.
 
 (* a buffer that holds no elements may be replaced by any well formed one without elements
@@ -201,7 +208,7 @@ Qed.
 Lemma fresh_buf_els e r i n size tr : buf_els e (mkbuf r i n size 0 tr (mkslots e tr size)) = [].
 Proof.
   unfold buf_els, mkslots. simpl. destruct tr as [k|]; [|reflexivity].
-  destruct (esz e k) eqn:Z; simpl; [reflexivity|]. rewrite Nat.sub_diag. reflexivity.
+  destruct (esz e k) eqn:Z; reflexivity.
 Qed.
 
 Lemma hget_alloc e w len i n tr j :
@@ -250,9 +257,11 @@ Proof. decide equality. apply Nat.eq_dec. Defined.
 
 Definition cnt (w : world) (id : nat) : nat := count_occ onat_dec (whnd w) (Some id).
 
+Definition refs (w : world) (id : nat) : option nat := option_map bref (hget w id).
+
 Definition rinv (w : world) : Prop :=
-  forall id, match hget w id with
-             | Some b => bref b = cnt w id /\ 1 <= bref b
+  forall id, match refs w id with
+             | Some r => r = cnt w id /\ 1 <= r
              | None => cnt w id = 0
              end.
 
@@ -264,7 +273,11 @@ Proof.
   revert h; induction l as [|y l IH]; intros h H; simpl in H; [lia|].
   destruct h as [|h].
   - unfold setnth. simpl. destruct (onat_dec v x), (onat_dec y x); lia.
-  - unfold setnth in *. simpl. specialize (IH h ltac:(lia)).
+  - unfold setnth in *. specialize (IH h ltac:(lia)).
+    change (skipn (S (S h)) (y :: l)) with (skipn (S h) l).
+    change (firstn (S h) (y :: l)) with (y :: firstn h l).
+    change (nth (S h) (y :: l) None) with (nth h l None).
+    cbn [app count_occ].
     destruct (onat_dec y x); lia.
 Qed.
 
@@ -292,10 +305,17 @@ Proof.
   apply nth_error_In in E. apply (count_occ_In onat_dec) in E. lia.
 Qed.
 
-Lemma rinv_handle w h id : rinv w -> handle w h = Some id -> exists b, hget w id = Some b.
+Lemma rinv_handle w h id : rinv w -> handle w h = Some id -> exists b, hget w id = Some b /\ 1 <= bref b.
 Proof.
-  intros R H. specialize (R id). pose proof (handle_cnt _ _ _ H).
-  destruct (hget w id) as [b|]; [eauto|lia].
+  intros R H. specialize (R id). pose proof (handle_cnt _ _ _ H). unfold refs in R.
+  destruct (hget w id) as [b|]; simpl in R; [exists b; split; [reflexivity|lia]|lia].
+Qed.
+
+(* the reference counts are the only thing [rinv] looks at *)
+Lemma rinv_same_refs w w' :
+  rinv w -> whnd w' = whnd w -> (forall j, refs w' j = refs w j) -> rinv w'.
+Proof.
+  intros R H E id. specialize (R id). rewrite E. unfold cnt in *. rewrite H. assumption.
 Qed.
 
 Lemma set_hnd_len w h v : h < length (whnd w) -> length (whnd (set_hnd w h v)) = length (whnd w).
